@@ -13,12 +13,12 @@ EXPLANATION = __doc__
 LEVEL_NOTE = "PARTIAL claim: decides the bounds / bookkeeping clauses named in the description, not equality with a reference log over operation sequences (TermSegments' loop, the SkipMap and the atomics' interleavings are not modelled)."
 
 
-def run(ctx):
+def entry_term_table(ctx, RULE):
     F = ctx.F
     # ---------------------------------------------------------------- (a) entry_term
     f = ctx.anchor(F.method, "BufferedRaftLog", "entry_term")
     if f:
-        paths = table_of(ctx, "C19-a", f, "entry_term")
+        paths = table_of(ctx, RULE, f, "entry_term")
         if paths:
             tb0 = pathsym.Table(paths)
 
@@ -30,7 +30,7 @@ def run(ctx):
             q_id = pick(tb0.quant, par(2), "")
             extra = [q for q in tb0.quant if q not in (q_max, q_min, q_pur, q_id)]
             if None in (q_max, q_min, q_pur, q_id) or extra:
-                ctx.bad("C19-a", "%s#table" % fkey(f), "UNRECOGNISED-FORM: entry_term decides on %s (expected max_index, min_index, last_purged_index, the queried index)" % [sym_show(q) for q in tb0.quant], "%s:%s" % (f.file, f.line))
+                ctx.bad(RULE, "%s#table" % fkey(f), "UNRECOGNISED-FORM: entry_term decides on %s (expected max_index, min_index, last_purged_index, the queried index)" % [sym_show(q) for q in tb0.quant], "%s:%s" % (f.file, f.line))
             else:
                 def outcome(p, w):
                     r = p.ret
@@ -54,8 +54,13 @@ def run(ctx):
                     if pu > 0 and i == pu:
                         return "purge-boundary-term"
                     return "none"
-                run_table(ctx, "C19-a", "%s#table" % fkey(f), paths, outcome, spec, "%s:%s" % (f.file, f.line),
+                run_table(ctx, RULE, "%s#table" % fkey(f), paths, outcome, spec, "%s:%s" % (f.file, f.line),
                           variant_universe=None, what="entry_term(i): lookup iff min_index <= i <= max_index (log non-empty), purge-boundary term iff i == last_purged_index > 0, else None")
+
+
+def run(ctx):
+    F = ctx.F
+    entry_term_table(ctx, "C19-a")
     # ---------------------------------------------------------------- (b) last_log_id
     g = ctx.anchor(F.method, "BufferedRaftLog", "last_log_id")
     if g:
